@@ -430,29 +430,32 @@ class PfWorld:
             exp[p['id']] = fs
         return exp
 
-    def argv(self, out, procs=1, skip=True):
-        a = ['parse_folder.py', '-c', self.ini, '--device', 'cpu']
+    def argv(self, out, procs=1, skip=True, ov=None):
+        ov = ov or {}
+        a = ['parse_folder.py', '-c', ov.get('ini', self.ini), '--device', 'cpu']
         if skip:
             a.append('-s')
-        if self.in_img:
-            a += ['-i', self.in_img]
-        if self.in_xml:
-            a += ['-x', self.in_xml]
-        if self.in_logits:
-            a += ['--input-logit-path', self.in_logits]
+        in_img, in_xml, in_logits = (ov.get('in_img', self.in_img), ov.get('in_xml', self.in_xml),
+                                     ov.get('in_logits', self.in_logits))
+        if in_img:
+            a += ['-i', in_img]
+        if in_xml:
+            a += ['-x', in_xml]
+        if in_logits:
+            a += ['--input-logit-path', in_logits]
         flag = {'xml': '--output-xml-path', 'render': '--output-render-path', 'logits': '--output-logit-path',
                 'alto': '--output-alto-path', 'lines': '--output-line-path'}
         for kind in KINDS:
-            if kind in self.plan['outputs']:
+            if kind in ov.get('outputs', self.plan['outputs']):
                 a += [flag[kind], os.path.join(out, kind)]
-        if self.plan.get('transcriptions_file'):
+        if self.plan.get('transcriptions_file') and 'outputs' not in ov:
             a += ['--output-transcriptions-file-path', os.path.join(out, 'transcriptions.txt')]
         if procs > 1:
             a += ['--process-count', str(procs)]
         return a
 
     # -- one simulated process
-    def simulate_process(self, out, spec, extra_argv=None):
+    def simulate_process(self, out, spec, extra_argv=None, ov=None):
         import parse_folder as pf
         import numpy.random
         import random as _random
@@ -460,7 +463,7 @@ class PfWorld:
         self.proc = p
         self.res.sim_processes += 1
         self.log.add('sim', 'process-start', [os.path.basename(out), spec.get('crash_at'), spec.get('procs', 1)])
-        sys.argv = self.argv(out, procs=spec.get('procs', 1)) + (extra_argv or [])
+        sys.argv = self.argv(out, procs=spec.get('procs', 1), ov=ov) + (extra_argv or [])
         _random.seed(spec.get('rng_seed', 0))
         numpy.random.seed(spec.get('rng_seed', 0) % (2 ** 31))
         so, se = io.StringIO(), io.StringIO()
